@@ -146,6 +146,109 @@ fn one_case(ctl: &Arc<Ctl>, pre_commits: u64, pre_compact: bool, gap: Gap, out: 
     }
 }
 
+/// Free-running: a writer commits uniquely marked transactions (compacting every `compact_every`
+/// commits, 0 = never) while this thread takes backups back to back; every completed backup is
+/// restored and must equal the source after j commits, acked-before-call <= j <= started-before-return.
+fn stress(seed: u64, secs: u64, compact_every: u64, out: &mut CaseOut) {
+    use std::sync::atomic::{AtomicBool, AtomicU64, Ordering};
+    let dir = ScratchDir::new("c29s");
+    let base = dir.db_base();
+    let Ok(db) = Db::open(&base) else {
+        out.inconclusive("open");
+        return;
+    };
+    let db = Arc::new(db);
+    let states: Arc<std::sync::Mutex<Vec<Facts>>> = Arc::new(std::sync::Mutex::new(vec![db_dump(&db)]));
+    let (started, acked, stop) = (Arc::new(AtomicU64::new(0)), Arc::new(AtomicU64::new(0)), Arc::new(AtomicBool::new(false)));
+    let (cstart, cfin) = (Arc::new(AtomicU64::new(0)), Arc::new(AtomicU64::new(0)));
+    let w = {
+        let (db, states, started, acked, stop, cstart, cfin) = (db.clone(), states.clone(), started.clone(), acked.clone(), stop.clone(), cstart.clone(), cfin.clone());
+        std::thread::spawn(move || {
+            let mut rng = crate::common::rng::Rng::derive(seed, 77);
+            let mut k = 0u64;
+            while !stop.load(Ordering::Relaxed) && k < 300 {
+                started.store(k + 1, Ordering::SeqCst);
+                if marker_tx(&db, k).is_err() {
+                    break;
+                }
+                states.lock().unwrap().push(db_dump(&db));
+                acked.store(k + 1, Ordering::SeqCst);
+                k += 1;
+                if compact_every > 0 && k % compact_every == 0 {
+                    cstart.fetch_add(1, Ordering::SeqCst);
+                    let _ = db.compact();
+                    cfin.fetch_add(1, Ordering::SeqCst);
+                }
+                if rng.chance(1, 3) {
+                    std::thread::sleep(Duration::from_micros(rng.below(800) as u64));
+                }
+            }
+        })
+    };
+    let t0 = std::time::Instant::now();
+    let mut n = 0u64;
+    while t0.elapsed() < Duration::from_secs(secs) && !w.is_finished() {
+        let bdir = dir.path.join(format!("b{n}"));
+        let _ = std::fs::create_dir_all(&bdir);
+        n += 1;
+        let lo = acked.load(Ordering::SeqCst) as usize;
+        let cfin0 = cfin.load(Ordering::SeqCst);
+        let res = ndb_core::backup(&base, &bdir);
+        let hi = started.load(Ordering::SeqCst) as usize;
+        let overlapped = cstart.load(Ordering::SeqCst) > cfin0;
+        let info = match res {
+            Ok(i) => i,
+            Err(e) => {
+                out.count("backup_reported_failure", 1);
+                out.inconclusive(&format!("backup-not-completed:{}", crate::storemon::normalise_msg(&e.to_string())));
+                continue;
+            }
+        };
+        out.evaluations += 1;
+        out.count("backups.free-running", 1);
+        if hi > lo {
+            out.count("backups.free-running.commit-overlapped", 1);
+        }
+        if overlapped {
+            out.count("backups.free-running.compaction-overlapped", 1);
+        }
+        let class = if overlapped { "free-running:compaction-overlapped" } else { "free-running:no-compaction-overlapped" };
+        out.cell(format!("{class}:commits-overlapped={}", hi > lo));
+        let rdir = ScratchDir::new("c29sr");
+        match restore_and_dump(&bdir, info, &rdir) {
+            Err(e) => out.violations.push(Violation {
+                signature: format!("C29|restored-backup-unusable:{}|{class}", crate::storemon::normalise_msg(&e)),
+                summary: e,
+                detail: json!({"lo": lo, "hi": hi, "compact_every": compact_every}),
+                replay: json!({"engine":"concmon","property":"C29","kind":"stress","compact_every":compact_every}),
+            }),
+            Ok(d) => {
+                // the writer records a state before acknowledging it; wait for `hi` to be recorded
+                let deadline = std::time::Instant::now() + Duration::from_secs(5);
+                while states.lock().unwrap().len() <= hi && std::time::Instant::now() < deadline && !w.is_finished() {
+                    std::thread::sleep(Duration::from_millis(1));
+                }
+                let st = states.lock().unwrap();
+                let top = hi.min(st.len() - 1);
+                if !(lo..=top).any(|j| st[j] == d) {
+                    let near = (lo..=top).map(|j| diff_facts(&st[j], &d, usize::MAX)).min_by_key(|x| x.len()).unwrap_or_default();
+                    let older = (0..lo).any(|j| st[j] == d);
+                    let shown = &near[..near.len().min(10)];
+                    out.violations.push(Violation {
+                        signature: format!("C29|{}:{}|{class}", if older { "restored-state-misses-commits-from-before-the-backup" } else { "restored-state-is-no-moment-of-the-source" }, diff_signature(&near)),
+                        summary: format!("restored content equals no source state between commit {lo} (acknowledged before backup) and {hi} (last started during it)"),
+                        detail: json!({"lo": lo, "hi": hi, "diff_vs_nearest": facts_diff_json(shown, "source", "restored")}),
+                        replay: json!({"engine":"concmon","property":"C29","kind":"stress","compact_every":compact_every}),
+                    });
+                }
+            }
+        }
+        let _ = std::fs::remove_dir_all(&bdir);
+    }
+    stop.store(true, Ordering::SeqCst);
+    let _ = w.join();
+}
+
 fn gap_class(g: Gap) -> &'static str {
     match g {
         Gap::Quiescent => "quiescent",
@@ -169,13 +272,17 @@ pub fn main(args: &Args) -> Report {
     let reps = if args.thorough() { 25 } else { 4 };
     for r in 0..reps {
         for pre_compact in [false, true] {
-            let pre = 2 + (r as u64 % 5);
+            let pre = 2 + ((r as u64 + args.seed) % 5);
             for gap in [Gap::Quiescent, Gap::Commits(1), Gap::Commits(3), Gap::CommitsAndCompaction, Gap::CompactionOnly] {
                 one_case(&ctl, pre, pre_compact, gap, &mut out);
             }
         }
     }
     Ctl::uninstall();
+    let secs = args.budget_s(6, 240);
+    stress(args.seed, secs, 0, &mut out);
+    stress(args.seed + 1, secs, 7, &mut out);
+    out.samples.push(json!({"case": "free-running: writer commits markers (compaction every 7) while backups run back to back; each restored backup must equal a source state between acked-before-call and started-before-return"}));
     out.samples.push(json!({"case": "3 commits; backup thread copies g.ndb, parks; writer commits #4,#5 and compacts; backup copies g.wal; restore; open; dump in {state3,state4,state5}"}));
     let mut seen = std::collections::BTreeMap::<String, usize>::new();
     out.violations.retain(|v| {
@@ -185,6 +292,7 @@ pub fn main(args: &Args) -> Report {
     });
     rep.out = out;
     rep.floor("quiescent backups", rep.counter("backups.quiescent"), if args.thorough() { 40 } else { 6 });
+    rep.floor("free-running backups", rep.counter("backups.free-running"), if args.thorough() { 200 } else { 10 });
     rep.floor("backups with commits in the gap", rep.counter("backups.commits-in-gap") + rep.counter("backups.commits+compaction-in-gap"), if args.thorough() { 100 } else { 12 });
     rep
 }
